@@ -3,9 +3,15 @@ package app
 // C07 — mempool checks are isolated from consensus execution.
 
 import (
+	"strconv"
+
 	"github.com/Oneledger/protocol/action"
+	"github.com/Oneledger/protocol/action/olvm"
 	"github.com/Oneledger/protocol/action/transfer"
+	"github.com/Oneledger/protocol/data/balance"
+	"github.com/Oneledger/protocol/utils"
 	sv "github.com/Oneledger/protocol/zz_sv"
+	ethcmn "github.com/ethereum/go-ethereum/common"
 )
 
 // svSomeTx: a transaction of a state-changing kind with havoc payload, signed
@@ -76,4 +82,73 @@ func SV_C07_checktx_isolated() {
 	tb2 := svBlock(b, 4, nv, nil, nil)
 	sv.Assert(ta2.equal(tb2), "next-block-has-the-same-results")
 	sv.Observe("code", ta1.Codes[0])
+}
+
+// SV_C07_olvm_checktx: the EVM state adapter is one object shared by the
+// mempool path and block execution; an OLVM CheckTx must leave nothing in it.
+//
+// sv:bounds genesis with 2 validators; the OLVM sender X (secp256k1 address) and party B funded with symbolic balances; block 3 carries a native SEND B->X with an arbitrary amount followed by an OLVM transfer X->B (amount and price arbitrary in [0,2^128), gas limit 50000; nonce 0), block 4 is empty; one injected CheckTx of that same OLVM transaction (thorough: or of another transfer from X with its own amount) at any of the 6 call boundaries of block 3 (before / after BeginBlock, after each DeliverTx, after EndBlock, after Commit)
+// sv:outside several CheckTx calls; contract targets; real concurrency
+// sv:goal DeliverTx codes / gas, validator updates and the ordered write set of both blocks are the same with and without the injected CheckTx
+func SV_C07_olvm_checktx() {
+	sv.NominalSizes(64)
+	nv := 2
+	x := svEthAddr(0)
+	fundX, fundB := svNonNeg("fundX"), svNonNeg("fundB")
+	sv.Assume(fundX.Cmp(svTwo128) < 0 && fundB.Cmp(svTwo128) < 0)
+	mk := func() *App {
+		app := svNewApp()
+		svInstallIndexer()
+		svGenesisWithValidators(app, []int64{3000000, 3000000})
+		app.Context.stateDB.SetBlockHash(ethcmn.BytesToHash([]byte{1})) // the EVM is enabled
+		svFundOLT(app, x, fundX)
+		svFundOLT(app, svParty_(1).Addr, fundB)
+		svCommitBlock(app)
+		return app
+	}
+	to := svParty_(1).Addr
+	price := svNonNeg("olvm.price")
+	sv.Assume(price.Cmp(svTwo128) < 0)
+	mkOLVM := func(tag string) action.SignedTx {
+		amt := svNonNeg(tag + ".amount")
+		sv.Assume(amt.Cmp(svTwo128) < 0)
+		msg := &olvm.Transaction{Nonce: 0, From: x, To: &to,
+			Amount:  action.Amount{Currency: "OLT", Value: *balance.NewAmountFromBigInt(amt)},
+			ChainID: utils.HashToBigInt(svHeader(0).ChainID)}
+		data, err := msg.Marshal()
+		if err != nil {
+			sv.Unreachable("marshal")
+		}
+		raw := action.RawTx{Type: action.OLVM, Data: data, Memo: strconv.FormatUint(0, 10),
+			Fee: action.Fee{Price: action.Amount{Currency: "OLT", Value: *balance.NewAmountFromBigInt(price)}, Gas: 50000}}
+		return svSignOLVM(raw, 0)
+	}
+	a, b := mk(), mk()
+	fp := sv.BigInt("fee.price") // the SEND's fee price (shared input of svRaw)
+	sv.Assume(fp.Sign() >= 0 && fp.Cmp(svTwo128) < 0)
+	sendAmt := svNonNeg("send.amount")
+	sv.Assume(sendAmt.Cmp(svTwo128) < 0)
+	sendRaw := svRaw(action.SEND, &transfer.Send{From: svParty_(1).Addr, To: x, Amount: action.Amount{Currency: "OLT", Value: *balance.NewAmountFromBigInt(sendAmt)}})
+	sendRaw.Fee.Gas = 1 << 40 // ample: the store gas of the native run (real record sizes) differs from the nominal sizes used here
+	send := svSign(sendRaw, 1)
+	blk := []action.SignedTx{send, mkOLVM("blk")}
+	chk := blk[1] // the mempool checks the very transaction the block carries
+	if sv.Tier() > 0 && sv.Choice("chk.other", 2) == 1 {
+		chk = mkOLVM("chk")
+	}
+	where := sv.Choice("inject.at", 6)
+	ta1 := svBlock(a, 3, nv, blk, func(pos int) {
+		if pos == where {
+			svCheck(a, chk)
+			sv.Cover(true, "checktx-injected")
+		}
+	})
+	tb1 := svBlock(b, 3, nv, blk, nil)
+	sv.Assert(ta1.equal(tb1), "block-with-injected-olvm-checktx-has-the-same-results")
+	ta2 := svBlock(a, 4, nv, nil, nil)
+	tb2 := svBlock(b, 4, nv, nil, nil)
+	sv.Assert(ta2.equal(tb2), "next-block-has-the-same-results")
+	sv.Observe("code.send", ta1.Codes[0])
+	sv.Observe("code.olvm", ta1.Codes[1])
+	sv.Cover(ta1.Codes[1] == 0, "olvm-executed")
 }
